@@ -84,7 +84,7 @@ def cases(rng, tier):
             olds.append([frac(x) for x in _dyadic_row(rng, n, 4)] if rng.random() < 0.5 else None)
         Nv = rng.choice([None, Fraction(2), Fraction(5), Fraction(17), Fraction(64), Fraction(1000), Fraction(rng.randint(8, 800), 8)])
         yield ("weights", {"rows": [[frac(x) for x in r_] for r_ in rows], "signs": signs, "old": olds, "bases": True,
-                           "N": None if Nv is None else frac(Nv), "seed": rng.randrange(1 << 30)})
+                           "N": None if Nv is None else frac(Nv), "seed": rng.randrange(1 << 30), "rejected": rng.random() < 0.4})
     # small but not negligible tails: total tail mass between the 1e-14 cut-off and 1e-8
     for _ in range(N // 8):
         rows = []
@@ -181,6 +181,13 @@ def _run_weights(payload, forced=None):
                 b.coeffs = final
             else:
                 b = QPDBasis(maps, final)
+            if payload.get("rejected"):
+                # a refused assignment (wrong length) must leave the object as it was
+                for bad in ([0.5] * (len(final) + 1), [2.5] * max(0, len(final) - 1)):
+                    try:
+                        b.coeffs = bad
+                    except ValueError:
+                        pass
             bases.append(b)
     old = np.random.choice
     np.random.choice = sc
